@@ -167,6 +167,58 @@ def run_histories(part, term, depth):
     part.add("terms", "history:" + term.name)
 
 
+def run_items(part):
+    """Item level, the way a hand-written decoder uses a combinator: every step (one token's worth of items) of every
+    parameterised base combinator is serialized and read back directly; then the *returned list is changed in place* by the
+    caller (as an accumulating decoder does) and the same text is read again - it must decode to the same items."""
+    ps = S.ps()
+    env = ps.CombinatorEnv(height=2, width=3)
+    terms = list(S.base_terms())
+    for base in range(2, 7):
+        for digits in range(1, 6):
+            if base ** digits <= 36:
+                terms.append(S.TMultiDigit(base, digits))
+    for mi, ms in ((0, 35), (35, 0), (5, 5), (8, 3), (2, 11), (11, 2), (17, 1)):
+        terms.append(S.TIntSpaces(-1, mi, ms))
+    hexdot = S.TOneOf(S.TDict([-1], ["."]), S.THexInt())
+    terms += [S.TOneOf(S.TSpaces(0, "k"), S.TMultiDigit(2, 4)), S.TTupl(S.TMultiDigit(3, 3), S.TFixStr("/"), S.TMultiDigit(2, 5)), hexdot]
+    seen = set()
+    for t in terms:
+        if t.name in seen:
+            continue
+        seen.add(t.name)
+        comb = t.build()
+        steps = t.steps() if not isinstance(t, S.TTupl) else [sum((e.steps()[-1] for e in t.elems if not isinstance(e, S.TFixStr)), [])]
+        for st in steps:
+            part.count("evaluations")
+            case = {"term": t.name, "items": list(st), "height": 2, "width": 3, "value": list(st), "item_level": True}
+            kh = keyhint(t) + "{items}"
+            try:
+                r = comb.serialize(env, list(st), 0)
+                if r is None:
+                    continue  # not a step this parameterisation accepts (judged by the value-level family)
+                used, text = r
+                first = comb.deserialize(env, text, 0)
+                if first is None or first[0] != len(text) or list(first[1]) != list(st)[:used]:
+                    part.violation(kh + ":item-roundtrip-differs", case, {"text": text, "decoded": repr(first)[:100]})
+                    continue
+                got = first[1]
+                if isinstance(got, list):
+                    got.reverse()
+                    got.append("junk")
+                    got[:] = got[-1:] + got
+                second = comb.deserialize(env, text, 0)
+                third = comb.deserialize(env, text, 0)
+                if second is None or list(second[1]) != list(st)[:used] or third is None or list(third[1]) != list(st)[:used] or (isinstance(second[1], list) and second[1] is third[1]):
+                    part.violation(kh + ":decoded-list-shared-between-calls", case, {"text": text, "second": repr(second)[:100]})
+                    continue
+            except Exception as e:
+                part.violation(kh + ":item-level-raises-" + type(e).__name__, case, {"exception": repr(e)[:200]})
+                continue
+            part.add("nontrivial", ("items", t.name, repr(st)))
+    part.add("terms", "item-level")
+
+
 def run_inplace(part):
     """One ValuedRooms / Rooms instance, ONE rooms list object: serialize, then reorder that very list (and its rooms) in
     place - values following their rooms - and serialize again; every text must decode to the problem as it is at that
@@ -350,6 +402,8 @@ def worker(shard, part):
             part.sample({"term": _TERMS[lo].name})
     elif what == "inplace":
         run_inplace(part)
+    elif what == "items":
+        run_items(part)
     elif what == "history":
         _, idx, depth = shard
         run_histories(part, history_terms()[idx], depth)
@@ -381,6 +435,7 @@ def main(tier, seed, only=None):
     for idx in range(len(history_terms())):
         shards.append(("history", idx, 2 if tier == "quick" else 3))
     shards.append(("inplace",))
+    shards.append(("items",))
     if only:
         shards = [s for s in shards if s[0] == only]
     run = harness.Run(
@@ -391,7 +446,7 @@ def main(tier, seed, only=None):
         "value combinators, Tupl with Rooms.  Values: all sequences over each alphabet while <= cap else a boundary family; boundary values "
         "0,15,16,255,256,4095; blank runs of every length 1..2*max+1 on 1xN / Nx1 boards; every partition of every board with <= %d cells into "
         "connected rooms in every order of rooms and cells (<= %d cells) or canonical/reversed/rotated.  Histories: for 8 board-sized terms (Rooms, ValuedRooms, Grid, Tupl of them) ONE combinator instance serves every ordered pair (thorough: triple) of "
-        "boards from an 11-board menu with repeated areas, and the last round trip is judged; one instance and ONE rooms list object reordered in place between serializations (reverse, rotate, swap, cell order, sort).  Every accepted value also goes through serialize_problem_as_url / deserialize_problem_as_url (with and without return_size).  A term is admitted iff OneOf alternatives "
+        "boards from an 11-board menu with repeated areas, and the last round trip is judged; one instance and ONE rooms list object reordered in place between serializations (reverse, rotate, swap, cell order, sort).  Item level: every step of every parameterised base combinator read back directly, the returned list changed in place by the caller, and read again.  Every accepted value also goes through serialize_problem_as_url / deserialize_problem_as_url (with and without return_size).  A term is admitted iff OneOf alternatives "
         "have disjoint FIRST sets and no greedy decimal reader is followed by a digit.  Oracle: decode(encode(v)) == v (rooms up to canonical "
         "order) and consumed == len(text)." % (6 if tier == "quick" else 9, 4 if tier == "quick" else 5),
     )
@@ -406,6 +461,10 @@ def main(tier, seed, only=None):
 
 def replay(case):
     part = harness.Partial()
+    if case.get("item_level"):
+        run_items(part)
+        mine = [x for x in part.violations if x.case.get("term") == case["term"] and x.case.get("items") == case["items"]]
+        return (not mine), (mine[0].detail if mine else "round-trips")
     if "inplace_step" in case:
         run_inplace(part)
         mine = [x for x in part.violations if x.case.get("term") == case["term"] and x.case.get("value") == case["value"] and x.case.get("inplace_step") == case["inplace_step"]]
